@@ -1,22 +1,31 @@
 #!/bin/sh
 # re-runs every seeded (sub-agent) change of /verif/seeded/<id>/patch.diff against the checks recorded as catching it
 # in meta.json; prints CAUGHT/MISSED per (seed, property). Exit 1 if a recorded catch is lost.
+# usage: run_seeded.sh [id]      (GOVC_SELFTEST_JOBS seeds at a time, default 4)
 cd /verif
-miss=0
-for d in seeded/C*; do
-  id=$(basename $d)
-  [ -n "$1" ] && [ "$1" != "$id" ] && continue
+one() {
+  id="$1"; d=seeded/$id
   props=$(python3 -c "
 import json,sys
 m=json.load(open('$d/meta.json'))
 print(' '.join(k for k,v in m.get('checks_run',{}).items() if v.get('caught')))")
-  W=/root/scratch/sd_$$
-  git -C /repo worktree add -q "$W" HEAD
-  if ! git -C "$W" apply "/verif/$d/patch.diff" 2>/dev/null; then echo "STALE  $id (patch no longer applies)"; git -C /repo worktree remove --force "$W"; miss=1; continue; fi
+  W=/root/scratch/sd_$id
+  rm -rf "$W"; git -C /repo worktree prune
+  git -C /repo worktree add -q "$W" HEAD || { echo "ERROR  $id (no worktree)"; return; }
+  if ! git -C "$W" apply "/verif/$d/patch.diff" 2>/dev/null; then echo "STALE  $id (patch no longer applies)"; git -C /repo worktree remove --force "$W"; return; fi
   for prop in $props; do
-    out=$(GOVC_REPO="$W" GOVC_HOME=/verif GOVC_NOEVIDENCE=1 /verif/bin/govc check "$prop" 2>&1)
-    if echo "$out" | grep -q "^VIOLATION property=$prop"; then echo "CAUGHT seeded/$id by $prop ($(echo "$out" | grep -c '^VIOLATION') obligations)"; else echo "MISSED seeded/$id by $prop"; miss=1; fi
+    out=$(GOVC_REPO="$W" GOVC_HOME=/verif GOVC_NOEVIDENCE=1 GOVC_OUT="/root/scratch/out_sd_$id" /verif/bin/govc check "$prop" 2>&1)
+    if echo "$out" | grep -q "^VIOLATION property=$prop"; then echo "CAUGHT seeded/$id by $prop ($(echo "$out" | grep -c '^VIOLATION') obligations, $(echo "$out" | grep "^VIOLATION" | grep -vc "no-failing-input-found") replayed)"; else echo "MISSED seeded/$id by $prop"; fi
   done
   git -C /repo worktree remove --force "$W"
-done
-exit $miss
+  rm -rf "/root/scratch/out_sd_$id"
+}
+if [ "$1" = "--one" ]; then one "$2"; exit 0; fi
+J=${GOVC_SELFTEST_JOBS:-4}
+R=/root/scratch/seeded_run.$$
+ls -d seeded/C* | xargs -n1 basename | { if [ -n "$1" ]; then grep -x "$1"; else cat; fi; } | xargs -P "$J" -I{} sh /verif/tools/run_seeded.sh --one {} > "$R" 2>&1
+sort "$R"
+rc=0
+if grep -q "^MISSED\|^ERROR\|^STALE" "$R"; then rc=1; fi
+rm -f "$R"
+exit $rc
